@@ -73,6 +73,30 @@ def bind_single_def_locals(sb, e, pre=None, depth=0):
             sb.env[p] = sb.sym(ini)
 
 
+def _fixed_vector_count(f, d):
+    """The count expression of `std::vector<T> v(count[, value])` for local d, if nothing resizes v later."""
+    init = None
+    for n in f.live_nodes():
+        if n["k"] == "DeclStmt":
+            for v in n["decls"]:
+                if v.get("d") == d and v.get("init") is not None:
+                    init = strip(v["init"])
+        elif n["k"] == "CXXMemberCallExpr" and n.get("ext") and n.get("obj") is not None and \
+                callee_name(n) in ("push_back", "emplace_back", "pop_back", "resize", "clear", "erase", "insert", "assign", "swap", "reserve", "shrink_to_fit"):
+            o = strip(n["obj"])
+            if o["k"] == "DeclRefExpr" and o.get("d") == d and callee_name(n) != "reserve":
+                return None
+    if init is None or init["k"] not in ("CXXConstructExpr", "CXXTemporaryObjectExpr") or init.get("rec") != "std::vector":
+        return None
+    args = init.get("args", [])
+    if len(args) not in (1, 2, 3):
+        return None
+    t = f.type(args[0])
+    if not t or t.get("kind") not in ("int", "uint"):
+        return None
+    return args[0]
+
+
 class SeqBuilder:
     UID = 0
     """Walks a function body in source order, tracking symbolic values of locals / object fields in terms
@@ -162,6 +186,13 @@ class SeqBuilder:
             return self.sym(n["args"][0])          # std:: value wrappers (fpos, ...) are transparent
         if k == "CXXMemberCallExpr" and n.get("ext") and callee_name(n).startswith("operator ") and n.get("obj") is not None:
             return self.sym(n["obj"])              # conversion operators of std:: wrappers
+        if k == "CXXMemberCallExpr" and callee_name(n) == "size" and n.get("ext") and n.get("obj") is not None:
+            # std::vector<T> v(count[, value]) that is never resized afterwards: v.size() is count
+            o = strip(n["obj"])
+            if o["k"] == "DeclRefExpr" and o.get("dk") == "local":
+                cnt = _fixed_vector_count(f, o["d"])
+                if cnt is not None:
+                    return self.sym(cnt)
         if k in ("CallExpr", "CXXMemberCallExpr", "CXXOperatorCallExpr"):
             args = []
             if n.get("obj") is not None:
@@ -1059,26 +1090,29 @@ def r_mirror(db, rep):
     return pairs
 
 
-def subst_fields(s, env):
-    """Replace F:this.x atoms by the constructor's final symbolic value of this.x."""
+def subst_fields(s, env, keep_unassigned=False):
+    """Replace F:this.x atoms by the constructor's final symbolic value of this.x. keep_unassigned: the host is a build step
+    of an already constructed object; fields it does not assign keep their identity."""
     k = s[0]
     if k == "field" and len(s[1]) == 2 and s[1][0] == "this":
         v = env.get(s[1])
         if v is None:
+            if keep_unassigned:
+                return s
             return ("unk", "field-%s-not-fixed-by-constructor" % s[1][1])
         if symx.has_unknown(v) and not all(str(a[1]).startswith("afterloop") for a in symx.atoms(v) if a[0] == "unk"):
             return ("unk", "field-%s-not-fixed-by-constructor" % s[1][1])
         return v
     if k == "op":
-        return mk_op(s[1], subst_fields(s[2], env), subst_fields(s[3], env))
+        return mk_op(s[1], subst_fields(s[2], env, keep_unassigned), subst_fields(s[3], env, keep_unassigned))
     if k in ("neg", "not"):
-        return (k, subst_fields(s[1], env))
+        return (k, subst_fields(s[1], env, keep_unassigned))
     if k == "call":
-        return ("call", s[1], tuple(subst_fields(a, env) for a in s[2]))
+        return ("call", s[1], tuple(subst_fields(a, env, keep_unassigned) for a in s[2]))
     if k == "ite":
-        return ("ite", subst_fields(s[1], env), subst_fields(s[2], env), subst_fields(s[3], env))
+        return ("ite", subst_fields(s[1], env, keep_unassigned), subst_fields(s[2], env, keep_unassigned), subst_fields(s[3], env, keep_unassigned))
     if k == "idx":
-        return ("idx", subst_fields(s[1], env), subst_fields(s[2], env))
+        return ("idx", subst_fields(s[1], env, keep_unassigned), subst_fields(s[2], env, keep_unassigned))
     return s
 
 
@@ -1101,6 +1135,23 @@ def r_extent(db, rep):
                         "substring search index have the same extent in a built and in a loaded index")
 def r_extent_fm(db, rep):
     _extent(db, rep, ("SSA",))
+
+
+def _witness_where(a, b, pred):
+    """A valuation of the free symbols of a and b (small grid) at which pred(value of a, value of b) holds, or None."""
+    import itertools
+    syms = sorted(symx.atoms(a) | symx.atoms(b), key=repr)
+    grid = symx.GRID if len(syms) <= 2 else [0, 1, 2, 7, 31, 32, 33, 64, 100]
+    for vals in itertools.islice(itertools.product(grid, repeat=len(syms)), 8000):
+        val = dict(zip(syms, vals))
+        va, vb = symx.evaluate(a, val), symx.evaluate(b, val)
+        if va is None or vb is None:
+            continue
+        if pred(va, vb):
+            w = {canon(k): v for k, v in val.items()}
+            w.update({"lhs": va, "rhs": vb})
+            return w
+    return None
 
 
 def _extent(db, rep, only):
@@ -1142,7 +1193,7 @@ def _extent(db, rep, only):
                     rep.inst(c.nloc(node), "%s: field %s allocated in %s, saved in %s" % (w.rec, p[1], c.qn, w.qn))
                     rep.ob()
                     # compare in bytes (the saved pointer may be cast to another element type)
-                    ew = subst_fields(it.size, cb.env)
+                    ew = subst_fields(it.size, cb.env, keep_unassigned=not c.is_ctor)
                     at = c.types[node["alloct"]]
                     ea = mk_op("*", ext, C(max(at["bits"] // 8, 1)))
                     if canon(ea) == canon(ew):
@@ -1158,6 +1209,12 @@ def _extent(db, rep, only):
                         continue
                     # values computed by a loop before the allocation (e.g. a bit total) are the same symbol on both sides
                     wit = symx.differ_witness(ea, ew)
+                    if wit is not None and only is None and not c.is_ctor:
+                        # arrays allocated by a build step outside the constructors: only an image that is LARGER than the allocation
+                        # is a defect by itself (save reads past the array); slack that no query uses (BitSequenceRG::Rs, allocated
+                        # by BuildRank with four spare words) is correct code. Constructor allocations are held to equality, as the
+                        # loaded object gets exactly the saved extent and the queries are the same for both.
+                        wit = _witness_where(ea, ew, lambda a, b: a < b)
                     if wit is not None:
                         rep.viol("%s::%s#%s" % (w.rec, p[1], "ctor%d" % len(c.params)), c.nloc(node),
                                  "%s::%s is allocated with %s bytes in %s but %s writes %s bytes from it "
